@@ -22,6 +22,7 @@ class Parser(StmtParser):
             self.fail('unexpected trailing input')
         if st.k in ('spec', 'union'):
             st.for_update = self.saw_for_update
+            st.locking_read = getattr(self, 'saw_locking', False)
         return st
 
     def parse_script(self):
